@@ -23,7 +23,7 @@ ALLOWED_AXIOMS = {'propext', 'Classical.choice', 'Quot.sound'}
 TRUSTED_BASE = [
     'Lean 4.33.0 kernel (lake build; thorough tier: leanchecker re-check of the .olean files)',
     'axioms: propext, Classical.choice, Quot.sound only (audited with #print axioms on every property theorem; no sorry, no native_decide, no bv_decide)',
-    'the hand-written Lean model of fastPASTA (lean/FastPasta/Model); tied to /repo by the correspondence check (differential execution on generated inputs), which samples; the state machine step, the ALPIDE byte decoder, the word-level functions (loaders, accessors, status/data-word sanity checks, lane mapping, view byte predicates), the RDH loader / sanity validator / running checker, the payload cutter, the whole per-link payload validator of the non-stave modes (CdpRunningValidator::check with all handlers, set_current_rdh, do_payload_checks), LinkValidator::do_rdh_checks, the scanner's filter predicate and position tracker and the compared statistics fields are in addition TRANSLATED from the Rust source on every run (tools/src2lean.py, alpide2lean.py, rs2lean.py, stats2lean.py -> Spec/*SrcGen.lean) and proved equal to the model (Proofs/*SrcTie.lean) - there the translators (including the guarded source rewrites listed in tools/rsspec/linkval.json and linkrdh.json) are what is trusted',
+    'the hand-written Lean model of fastPASTA (lean/FastPasta/Model); tied to /repo by the correspondence check (differential execution on generated inputs), which samples; the state machine step, the ALPIDE byte decoder, the word-level functions (loaders, accessors, status/data-word sanity checks, lane mapping, view byte predicates), the RDH loader / sanity validator / running checker, the payload cutter, the whole per-link payload validator of the non-stave modes (CdpRunningValidator::check with all handlers, set_current_rdh, do_payload_checks), LinkValidator::do_rdh_checks, the filter predicate of the scanner and position tracker and the compared statistics fields are in addition TRANSLATED from the Rust source on every run (tools/src2lean.py, alpide2lean.py, rs2lean.py, stats2lean.py -> Spec/*SrcGen.lean) and proved equal to the model (Proofs/*SrcTie.lean) - there the translators (including the guarded source rewrites listed in tools/rsspec/linkval.json and linkrdh.json) are what is trusted',
     'the specification side (lean/FastPasta/Spec, statements in lean/FastPasta/Props) is a reading of doc/checks_list.md, the diagram, README and the property text',
     'rustc/std, clap, serde_json, toml, regex, flume, crossbeam-channel and the OS are assumed correct',
     'tools/*.py, harness/ (generators, canonicaliser, oracles) are trusted test code',
